@@ -84,7 +84,8 @@ theorem driveWF_of_sched : ∀ (ls : List (Bool × Nat)) (ms : List Mode) (st : 
 def FlatHyps (S : EinsumS) (env : String → Pts) (modes : List Mode) : Prop :=
   match S.terms with
   | [t] => t.kind = .times ∧ modes.length = S.loop.length ∧ S.exts.length = S.loop.length ∧ S.loop.Nodup ∧
-      DriveSched modes (t.tensors.map fun x => schedOf S.loop x.ranks) ∧ InBounds S env ∧ InputsWF S env
+      DriveSched modes (t.tensors.map fun x => schedOf S.loop x.ranks) ∧ InBounds S env ∧ InputsWF S env ∧
+      (∀ r ∈ S.outRanks, r ∈ S.loop)
   | _ => False
 
 instance (S : EinsumS) (env : String → Pts) (modes : List Mode) : Decidable (FlatHyps S env modes) := by
@@ -98,7 +99,7 @@ theorem flatten_nest (S : EinsumS) (env : String → Pts) (modes : List Mode) (h
   unfold FlatHyps at h
   split at h
   · rename_i t ht
-    obtain ⟨hk, hm, hlen, hnd, hds, hb, hin⟩ := h
+    obtain ⟨hk, hm, hlen, hnd, hds, hb, hin, _⟩ := h
     have hst : initTerms S env = [{ kind := t.kind, scal := t.scal, ops := t.tensors.map fun x => initOperand S.loop x (env x.name) }] := by
       simp [initTerms, ht]
     have hll : (levels S).length = S.loop.length := by simp [levels, hlen]
